@@ -105,7 +105,8 @@ def El.ofRat (q : Rat) : El := ⟨.fin q, zero⟩
 
 /-! ### numpy `astype` on exact values -/
 
-def pow2 (k : Int) : Rat := (2 : Rat) ^ k
+def pow2 (k : Int) : Rat :=
+  if 0 ≤ k then ((2 ^ k.toNat : Nat) : Rat) else mkRat 1 (2 ^ (-k).toNat)
 
 /-- ⌊log₂ a⌋ for a > 0. -/
 def ilog2 (a : Rat) : Int :=
